@@ -431,6 +431,31 @@ func genC25Client(t *rapid.T) c25cCase {
 			for j := rapid.IntRange(1, 2).Draw(t, "fpubrels"); j > 0; j-- {
 				c.Steps = append(c.Steps, c25cOp{SN: &snref.Pkt{Type: snref.PUBREL, MsgID: mid}, NoWait: rapid.IntRange(0, 3).Draw(t, "nowait") == 0})
 			}
+		case k == 5 && rapid.Bool().Draw(t, "termination_burst"):
+			// the client is being terminated (DISCONNECT from the gateway) at the very instant at which
+			// several API calls start, Sleep among them: nothing settles in between
+			first := rapid.Bool().Draw(t, "disconnect_first")
+			disc := c25cOp{SN: &snref.Pkt{Type: snref.DISCONNECT, NoDuration: true}, NoWait: true}
+			if first {
+				c.Steps = append(c.Steps, disc)
+			}
+			for j := rapid.IntRange(2, 6).Draw(t, "ncalls"); j > 0; j-- {
+				var cl clsim.Call
+				switch rapid.IntRange(0, 4).Draw(t, "bapi") {
+				case 0, 1:
+					cl = clsim.Call{API: "Sleep", DurMs: 1000}
+				case 2:
+					cl = clsim.Call{API: "Publish", Topic: "ab", QoS: 1, Payload: []byte("x")}
+				case 3:
+					cl = clsim.Call{API: "Ping"}
+				default:
+					cl = clsim.Call{API: "Disconnect"}
+				}
+				c.Steps = append(c.Steps, c25cOp{Call: &cl, NoWait: true})
+			}
+			if !first {
+				c.Steps = append(c.Steps, disc)
+			}
 		case k == 4 && len(c.Steps) > 0:
 			// a duplicated datagram: one of the gateway's earlier packets again
 			prev := c.Steps[rapid.IntRange(0, len(c.Steps)-1).Draw(t, "dupof")]
@@ -462,7 +487,7 @@ func genC25Client(t *rapid.T) c25cCase {
 func TestC25Gateway(t *testing.T) {
 	vf.Check(t, vf.Prop[c25cCase]{
 		ID: "C25", Name: "hostile-gateway-to-client", Bubble: true, MarkCurrent: true,
-		Rule: "real client (with and without keep-alive) against a hostile gateway: 1-40 steps mixing decodable packets of all 28 types with generated fields (message and topic IDs from small pools so that they hit the client's own exchanges, reserved topic-ID type), fragments of QoS 2 deliveries sharing one message ID (PUBLISH copies with drawn DUP flags, repeated PUBRELs, in any completeness), duplicated datagrams, API calls started and left in flight (Register, Subscribe, SubscribePredefined, Publish QoS 0-3, Unsubscribe, Sleep, Ping, Connect, Disconnect) and time advances across retry, keep-alive and the 1-minute sleep wait. Non-trivial = at least one gateway packet arrives while an API call is in flight; distinct by case.",
+		Rule: "real client (with and without keep-alive) against a hostile gateway: 1-40 steps mixing decodable packets of all 28 types with generated fields (message and topic IDs from small pools so that they hit the client's own exchanges, reserved topic-ID type), fragments of QoS 2 deliveries sharing one message ID (PUBLISH copies with drawn DUP flags, repeated PUBRELs, in any completeness), duplicated datagrams, bursts of 2-6 API calls (Sleep among them) started at the very instant the gateway's DISCONNECT terminates the client, API calls started and left in flight (Register, Subscribe, SubscribePredefined, Publish QoS 0-3, Unsubscribe, Sleep, Ping, Connect, Disconnect) and time advances across retry, keep-alive and the 1-minute sleep wait. Non-trivial = at least one gateway packet arrives while an API call is in flight; distinct by case.",
 		Assumptions: []string{"oracle: the test process survives (client goroutines have no recover); goroutines blocked for ever are C28's subject and are tolerated here"},
 		Gen:         genC25Client,
 		Run: func(c c25cCase) (r vf.Result) {
@@ -486,7 +511,9 @@ func TestC25Gateway(t *testing.T) {
 				switch {
 				case st.Call != nil:
 					inflight = append(inflight, s.Go(*st.Call))
-					s.Settle()
+					if !st.NoWait {
+						s.Settle()
+					}
 				case st.SN != nil:
 					for _, cs := range inflight {
 						if !cs.Returned {
